@@ -490,7 +490,20 @@ def d_valid_arm(prog, f, sy, e, cl):
             return ("D4", "closure is only created on the `self.is_valid()` arm of %s: symbols < 64 and lengths within capacity hold there" % parent.short.split("::")[-2])
         return None
     if under_is_valid(f, sy, e["blk"]):
-        return ("D4", "on the `self.is_valid()` arm: lengths within capacity, symbols < 64 (ASCII table output), so slicing/from_utf8 cannot fail")
+        # the argument "length <= capacity, position < length" covers a scratch array only when that array has the capacity of the block
+        # hash it holds: S1 / S2 of the hash type (64 / 64 for the comparison target) - a 32-byte scratch buffer for a block hash 2 that
+        # may hold 64 symbols is exactly the slip this audit is for
+        shp = shape(f, sy, e)
+        desc = describe(f, sy, e)
+        generic = "FuzzyHashCompareTarget" not in (f.impl_self or f.path)
+        for n in re.findall(r"local<\[u8; ([^\]]+)\]>", shp):
+            n = n.strip()
+            full = n in ("64", "64_usize") or n.endswith("FULL_SIZE") or n.endswith("FULL_SIZE}")
+            k = "2" if "len_blockhash2" in desc else ("1" if "len_blockhash1" in desc else None)
+            ok = full or (generic and n in ("S1", "S2") and (k is None or n == "S" + k))
+            if not ok:
+                return None
+        return ("D4", "on the `self.is_valid()` arm: lengths within capacity, symbols < 64 (ASCII table output), scratch arrays of the block hash's capacity, so slicing/from_utf8 cannot fail")
     return None
 
 
